@@ -52,3 +52,163 @@ Print Assumptions C01_unvalidated_run_reported.
 Print Assumptions C01_fee_no_miss_end_to_end.
 Print Assumptions C01_rekey_no_miss_end_to_end_partial.
 Print Assumptions C01_graph_ok_for_structured_programs.
+
+(* ------------------------------------------------------------------------------------------------------------
+   Extension (second round): theorems from Lemmas/{WalkLemmas,OutputLemmas,TypeExec,NoMiss2,ParseLemmas2,PaddingLemmas}.v *)
+From Coq Require Import List String NArith ZArith Bool Arith.
+From Tealer Require Import Tables Leaves LeafPrelude Syntax Parse Cfg StackAst Keys Analysis Domains Detect Group Output Runs Eval Exec InsExec Paths WalkLemmas OutputLemmas TypeExec NoMiss2 ParseLemmas2 PaddingLemmas.
+
+(* END TO END, can-close-account *)
+Theorem C01_can_close_account_no_miss_partial :
+  forall (e : env) (sem : opsem) (f : func) (fuel fuel' : nat) (res : fn_result) (cfgs : list rconfig) (ps : list (list nat)) (a : string),
+       sem_ok e sem ->
+       env_ok e ->
+       fn_intcs f = e_intcs e ->
+       ExecLemmas.graph_ok f ->
+       ExecLemmas.addr_leaves_ok e f KSelf "CloseRemainderTo" ->
+       ExecLemmas.addr_leaves_ok e f (KAtIndex (e_own e)) "CloseRemainderTo" ->
+       type_leaves_ok f KSelf "Pay" 1 0 0 ->
+       type_leaves_ok f (KAtIndex (e_own e)) "Pay" 1 0 0 ->
+       ExecLemmas.int_leaves_ok f true ->
+       ExecLemmas.int_leaves_ok f false ->
+       run_all f fuel = Done res ->
+       Accepts e sem f cfgs ->
+       PathCut.nonrecursive f cfgs ->
+       kind_fields e (e_own e) 1 0 0 ->
+       e_field e (e_own e) "CloseRemainderTo" = VAddr a ->
+       a <> "ZERO" ->
+       LeafLemmas.is_marker a = false ->
+       NoMiss.fresh_in res "CloseRemainderTo" (SingleLemmas.abs_name e a) ->
+       run_detector f res fuel' "can-close-account" checks_can_close_account = Done ps -> ps <> nil.
+Proof. exact @C01_closeto_no_miss_partial. Qed.
+
+(* END TO END, can-close-asset *)
+Theorem C01_can_close_asset_no_miss_partial :
+  forall (e : env) (sem : opsem) (f : func) (fuel fuel' : nat) (res : fn_result) (cfgs : list rconfig) (ps : list (list nat)) (a : string),
+       sem_ok e sem ->
+       env_ok e ->
+       fn_intcs f = e_intcs e ->
+       ExecLemmas.graph_ok f ->
+       ExecLemmas.addr_leaves_ok e f KSelf "AssetCloseTo" ->
+       ExecLemmas.addr_leaves_ok e f (KAtIndex (e_own e)) "AssetCloseTo" ->
+       type_leaves_ok f KSelf "Axfer" 4 0 0 ->
+       type_leaves_ok f (KAtIndex (e_own e)) "Axfer" 4 0 0 ->
+       ExecLemmas.int_leaves_ok f true ->
+       ExecLemmas.int_leaves_ok f false ->
+       run_all f fuel = Done res ->
+       Accepts e sem f cfgs ->
+       PathCut.nonrecursive f cfgs ->
+       kind_fields e (e_own e) 4 0 0 ->
+       e_field e (e_own e) "AssetCloseTo" = VAddr a ->
+       a <> "ZERO" ->
+       LeafLemmas.is_marker a = false ->
+       NoMiss.fresh_in res "AssetCloseTo" (SingleLemmas.abs_name e a) ->
+       run_detector f res fuel' "can-close-asset" checks_can_close_asset = Done ps -> ps <> nil.
+Proof. exact @C01_assetcloseto_no_miss_partial. Qed.
+
+(* END TO END, is-updatable *)
+Theorem C01_is_updatable_no_miss_partial :
+  forall (e : env) (sem : opsem) (f : func) (fuel fuel' : nat) (res : fn_result) (cfgs : list rconfig) (ps : list (list nat)) (ap : N),
+       sem_ok e sem ->
+       env_ok e ->
+       fn_intcs f = e_intcs e ->
+       ExecLemmas.graph_ok f ->
+       type_leaves_ok f KSelf "ApplUpdateApplication" 6 4 ap ->
+       type_leaves_ok f (KAtIndex (e_own e)) "ApplUpdateApplication" 6 4 ap ->
+       ExecLemmas.int_leaves_ok f true ->
+       ExecLemmas.int_leaves_ok f false ->
+       run_all f fuel = Done res ->
+       Accepts e sem f cfgs ->
+       PathCut.nonrecursive f cfgs ->
+       kind_fields e (e_own e) 6 4 ap -> run_detector f res fuel' "is-updatable" checks_is_updatable = Done ps -> ps <> nil.
+Proof. exact @C01_updatable_no_miss_partial. Qed.
+
+(* END TO END, is-deletable *)
+Theorem C01_is_deletable_no_miss_partial :
+  forall (e : env) (sem : opsem) (f : func) (fuel fuel' : nat) (res : fn_result) (cfgs : list rconfig) (ps : list (list nat)) (ap : N),
+       sem_ok e sem ->
+       env_ok e ->
+       fn_intcs f = e_intcs e ->
+       ExecLemmas.graph_ok f ->
+       type_leaves_ok f KSelf "ApplDeleteApplication" 6 5 ap ->
+       type_leaves_ok f (KAtIndex (e_own e)) "ApplDeleteApplication" 6 5 ap ->
+       ExecLemmas.int_leaves_ok f true ->
+       ExecLemmas.int_leaves_ok f false ->
+       run_all f fuel = Done res ->
+       Accepts e sem f cfgs ->
+       PathCut.nonrecursive f cfgs ->
+       kind_fields e (e_own e) 6 5 ap -> run_detector f res fuel' "is-deletable" checks_is_deletable = Done ps -> ps <> nil.
+Proof. exact @C01_deletable_no_miss_partial. Qed.
+
+(* END TO END, unprotected-updatable *)
+Theorem C01_unprotected_updatable_no_miss_partial :
+  forall (e : env) (sem : opsem) (f : func) (fuel fuel' : nat) (res : fn_result) (cfgs : list rconfig) (ps : list (list nat)) 
+         (ap : N) (a : string),
+       sem_ok e sem ->
+       env_ok e ->
+       fn_intcs f = e_intcs e ->
+       ExecLemmas.graph_ok f ->
+       type_leaves_ok f KSelf "ApplUpdateApplication" 6 4 ap ->
+       type_leaves_ok f (KAtIndex (e_own e)) "ApplUpdateApplication" 6 4 ap ->
+       ExecLemmas.addr_leaves_ok e f KSelf "Sender" ->
+       ExecLemmas.addr_leaves_ok e f (KAtIndex (e_own e)) "Sender" ->
+       ExecLemmas.int_leaves_ok f true ->
+       ExecLemmas.int_leaves_ok f false ->
+       run_all f fuel = Done res ->
+       Accepts e sem f cfgs ->
+       PathCut.nonrecursive f cfgs ->
+       kind_fields e (e_own e) 6 4 ap ->
+       e_field e (e_own e) "Sender" = VAddr a ->
+       a <> "ZERO" ->
+       LeafLemmas.is_marker a = false ->
+       NoMiss.fresh_in res "Sender" (SingleLemmas.abs_name e a) ->
+       run_detector f res fuel' "unprotected-updatable" checks_unprotected_updatable = Done ps -> ps <> nil.
+Proof. exact @C01_unprotected_updatable_no_miss_partial. Qed.
+
+(* END TO END, unprotected-deletable *)
+Theorem C01_unprotected_deletable_no_miss_partial :
+  forall (e : env) (sem : opsem) (f : func) (fuel fuel' : nat) (res : fn_result) (cfgs : list rconfig) (ps : list (list nat)) 
+         (ap : N) (a : string),
+       sem_ok e sem ->
+       env_ok e ->
+       fn_intcs f = e_intcs e ->
+       ExecLemmas.graph_ok f ->
+       type_leaves_ok f KSelf "ApplDeleteApplication" 6 5 ap ->
+       type_leaves_ok f (KAtIndex (e_own e)) "ApplDeleteApplication" 6 5 ap ->
+       ExecLemmas.addr_leaves_ok e f KSelf "Sender" ->
+       ExecLemmas.addr_leaves_ok e f (KAtIndex (e_own e)) "Sender" ->
+       ExecLemmas.int_leaves_ok f true ->
+       ExecLemmas.int_leaves_ok f false ->
+       run_all f fuel = Done res ->
+       Accepts e sem f cfgs ->
+       PathCut.nonrecursive f cfgs ->
+       kind_fields e (e_own e) 6 5 ap ->
+       e_field e (e_own e) "Sender" = VAddr a ->
+       a <> "ZERO" ->
+       LeafLemmas.is_marker a = false ->
+       NoMiss.fresh_in res "Sender" (SingleLemmas.abs_name e a) ->
+       run_detector f res fuel' "unprotected-deletable" checks_unprotected_deletable = Done ps -> ps <> nil.
+Proof. exact @C01_unprotected_deletable_no_miss_partial. Qed.
+
+(* END TO END, group-size-check: group of size 16, an absolute-index read on a part of the run that is not cut away as a loop (D21) *)
+Theorem C01_group_size_check_no_miss_partial :
+  forall (e : env) (sem : opsem) (f : func) (fuel fuel' : nat) (res : fn_result) (cfgs : list rconfig) (ps : list (list nat)),
+       sem_ok e sem ->
+       env_ok e ->
+       fn_intcs f = e_intcs e ->
+       ExecLemmas.graph_ok f ->
+       ExecLemmas.int_leaves_ok f true ->
+       ExecLemmas.int_leaves_ok f false ->
+       run_all f fuel = Done res ->
+       Accepts e sem f cfgs ->
+       PathCut.nonrecursive f cfgs ->
+       e_size e = MAX_GROUP_SIZE -> uncut_access f cfgs -> run_detector f res fuel' "group-size-check" checks_group_size_check = Done ps -> ps <> nil.
+Proof. exact @C01_groupsize_no_miss_partial. Qed.
+
+Print Assumptions C01_can_close_account_no_miss_partial.
+Print Assumptions C01_can_close_asset_no_miss_partial.
+Print Assumptions C01_is_updatable_no_miss_partial.
+Print Assumptions C01_is_deletable_no_miss_partial.
+Print Assumptions C01_unprotected_updatable_no_miss_partial.
+Print Assumptions C01_unprotected_deletable_no_miss_partial.
+Print Assumptions C01_group_size_check_no_miss_partial.
